@@ -138,6 +138,18 @@ def EvN.plain : EvN → Ev
   | .step m => .step m
   | .sig sp => .sig sp.g
 
+/-- how many interrupts one scheduled delivery amounts to in state `s`: 2 if a second signal is raised inside the handler
+    and the place is reached (no callback registered: nothing is raised from the callback), else 1 -/
+def SigSpec.weight (s : St) (sp : SigSpec) : Nat :=
+  match sp.nested with
+  | none => 1
+  | some (_, p) => if (p.gap s).isSome then 2 else 1
+
+/-- number of interrupts delivered along a schedule with nested deliveries (nested ones counted) -/
+def weightN (md : Mode) : St → List EvN → Nat
+  | _, [] => 0
+  | s, e :: r => (match e with | .sig sp => sp.weight s | .step _ => 0) + weightN md (execN md s e).1 r
+
 /-- the lifecycle automaton over schedules with nested deliveries (signals, nested or not, are not program steps) -/
 def pcRunN (L : Layout) : PC → List EvN → Option PC
   | pc, [] => some pc
